@@ -648,6 +648,18 @@ pub fn g_targeted_invalid(o: &mut Out) {
     }
 }
 
+/// a special-value numeral through the string entry point and through the streaming one (whole, and split in two at a
+/// random position: the streaming text buffers keep their own ranges for the payload digits)
+fn put_special(o: &mut Out, ty: &str, stratum: &str, text: &str) {
+    o.put(&format!("{}/{}", stratum, ty), format!("parse_str {} {}", ty, tx(text)));
+    let cap = text_cap(ty).map_or("-".to_string(), |c| c.to_string());
+    o.put(&format!("{}-fmt/{}", stratum, ty), format!("parse_fmt {} {} {} -", ty, cap, tx(text)));
+    if text.len() >= 2 {
+        let k = 1 + o.rng.below(text.len() as u64 - 1) as usize;
+        o.put(&format!("{}-fmt/{}", stratum, ty), format!("parse_fmt {} {} {},{} -", ty, cap, tx(&text[..k]), tx(&text[k..])));
+    }
+}
+
 /// C09: every letter-case variant x sign x payload shapes
 pub fn g_specials(o: &mut Out) {
     fn cases(word: &str, limit: usize, rng: &mut Rng) -> Vec<String> {
@@ -670,7 +682,7 @@ pub fn g_specials(o: &mut Out) {
         for sign in ["", "-", "+"] {
             for w in ["inf", "infinity", "nan", "snan"] {
                 for c in cases(w, 64, &mut o.rng) {
-                    o.put(&format!("special-case/{}", ty), format!("parse_str {} {}", ty, tx(&format!("{}{}", sign, c))));
+                    put_special(o, ty, "special-case", &format!("{}{}", sign, c));
                 }
             }
             // payloads
@@ -689,7 +701,7 @@ pub fn g_specials(o: &mut Out) {
                                 _ => (b'0' + o.rng.below(10) as u8) as char,
                             })
                             .collect();
-                        o.put(&format!("special-payload/{}", ty), format!("parse_str {} {}", ty, tx(&format!("{}{}({})", sign, w, ds))));
+                        put_special(o, ty, "special-payload", &format!("{}{}({})", sign, w, ds));
                     }
                 }
             }
